@@ -245,7 +245,7 @@ int main( int argc, char** argv )
     family<q4a, HpHolder<4>>( "SegmentedQueue-asc", 4, false, 2, 2, 1, 2 );
     family<q4d, HpHolder<4>>( "SegmentedQueue-desc", 3, false, 2, 2, 1, 2 );
     typedef cc::SegmentedQueue<cds::gc::DHP, Payload, ctr<p_choose, cds::sync::spin>> q4c;
-    family<q4c, DhpHolder>( "SegmentedQueue-choose", 4, false, 1, 2, 1, 1 );
+    family<q4c, DhpHolder>( "SegmentedQueue-choose", 4, false, 1, 1, 1, 1 );    // start-cell choices at every scan: one deviation is what completes
 #elif FAMILY == 3
     // intrusive queue, items owned by the harness; quasi factor 2 and 8
     typedef ci::SegmentedQueue<cds::gc::HP, IItem, itr<p_choose, cds::sync::spin>> iq2;
